@@ -21,13 +21,22 @@
   `-` is not applied directly to another `-` (the repaired form of F21 prints `-(-x)`, which is a different token list than the
   reference printer's `- - x`).  Globals may be declared at script level or be handler-level ones (the handler's own table;
   printed as sorted `global g` lines); properties are the script's declared ones.
+  Expressions also include the object-less `the` forms: `the <key name>` (43 0; 66 n), `the <movie property>` (5f n),
+  `the <system property>` (k; 5c 07), `the floatPrecision … the timeoutScript` (k; 5c 00).
+
+  STRUCTURED bodies (`T_link_structured`, `T_C02_structured`): `if … then … [else …] end if`, `repeat while c`,
+  `repeat with <local> = a [down] to b`, nested to any depth, over the same simple statements / expressions.  Fragment =
+  `FragScriptT s` (agent-link-flow's byte-level fragment, DrxProofs/LinkFlow2Link.lean) ∧ `FragScriptX s` (text level,
+  Drx/Link.lean; a `repeat while` condition must not be an infix operation: the decompiler strips its outer parentheses, which is
+  a different token list than the reference printer's).
 -/
 import Drx.Link
 import DrxProofs.LinkParse
 import DrxProofs.LinkLexText
 import DrxProofs.LinkRead
+import DrxProofs.LinkTextT
 namespace DrxProps.C02Link
-open Drx Drx.Spec Drx.Link
+open Drx Drx.Spec Drx.Link Drx.LinkFlow
 
 /-- side conditions on the compiled name table (it contains the caller's arbitrary prefix `o.pre`): the model decodes the
     chunk with mac_roman and reads a signed 16-bit count -/
@@ -94,6 +103,39 @@ theorem C02_model_partial (o : Options) (s : Script) (c : Compiled) (hf : FragSc
     ∃ text, modelDecompile c.lscr c.lnam = some text ∧ readLingo text = some s :=
   T_C02 o s c hf hr hc hn
 
+/-! ### structured bodies: if / repeat while / repeat with, nested -/
+
+/-- **L6m for nested trees**: the image of a structured body (agent-link-flow's `EmbTs`) prints `mSs` -/
+theorem L6m_structured (ss : List Stmt) (hf : FragXs ss = true) (ns : List Lscr.Node) (h : EmbTs ss ns) (ind : Nat) :
+    Lscr.lingoStmts ns ind = .ok (mSs ind ss) :=
+  lingo_trees ss hf ns h ind
+
+/-- **T-link, structured**: bytes (agent-link-flow's `parse_structured`: container, opcode walker, stack machine, the three jump
+    opcodes, `condition_detect`, `loop_detect`) → nested tree → text `mText s` → reference tokens.
+    `FragScriptT` is the byte-level fragment (DrxProofs/LinkFlow2Link.lean), `FragScriptX` the text-level one (Drx/Link.lean):
+    the same statement forms; `FragScriptX` additionally asks that a `repeat while` condition is no infix operation. -/
+theorem T_link_structured (o : Options) (s : Script) (c : Compiled) (hf : FragScriptT s = true) (hx : FragScriptX s = true)
+    (hc : compile o s = .ok c) (hn : NamesOk c) :
+    modelDecompile c.lscr c.lnam = some (mText s) ∧ lex (mText s) = some (dToks s) := by
+  obtain ⟨t, hp, hr⟩ := parse_structured o s c hf hc hn.1 hn.2
+  have hH : ∀ h ∈ s.handlers, FragXs h.body = true ∧ ∀ v ∈ h.params, idOk v = true := by
+    intro h hh
+    simp only [FragScriptX, Bool.and_eq_true, List.all_eq_true] at hx
+    obtain ⟨_, _, b, c, _, _⟩ := fragHX_spec s h (hx.2 h hh)
+    exact ⟨c, b⟩
+  have ht := lingoText_structured s t hr hH
+  refine ⟨?_, lex_mText_structured s hx⟩
+  simp only [modelDecompile, hp, Lscr.genLingo, ht]
+
+/-- **T-C02, structured**: the decompiled text of a compiled structured program reads back as the source -/
+theorem T_C02_structured (o : Options) (s : Script) (c : Compiled) (hf : FragScriptT s = true) (hx : FragScriptX s = true)
+    (hr : ReadOkB s = true) (hc : compile o s = .ok c) (hn : NamesOk c) :
+    ∃ text, modelDecompile c.lscr c.lnam = some text ∧ readLingo text = some s := by
+  obtain ⟨h1, h2⟩ := T_link_structured o s c hf hx hc hn
+  refine ⟨mText s, h1, ?_⟩
+  simp only [readLingo, h2, Option.bind_some]
+  exact read_dToks_structured s hx hr
+
 /-! ### non-vacuity: a two-handler script with nested expressions, parameters, locals, a global and a property -/
 
 def exScript : Script :=
@@ -110,6 +152,8 @@ def exScript : Script :=
                   .call "startUp".toList [.var .loc "z".toList, .call "startUp".toList [.int 1, .int 2]],
                   .call "alert".toList [.str "Hi there!".toList, .sym "warn".toList, .bin .concats (.str "a".toList) (.var .loc "z".toList)],
                   .set (.var .glob "zLast".toList) (.bin .add (.var .glob "counter".toList) (.var .glob "gTotal".toList)),
+                  .set (.var .loc "w".toList) (.bin .add (.key "mouseH".toList) (.bin .add (.the .sys 0x1b [])
+                      (.bin .add (.the .special 0 []) (.movie "frameLabel".toList)))),
                   .call "beep".toList [],
                   .exit ] } ] }
 
@@ -127,7 +171,42 @@ example : ∃ c, compile {} exScript = .ok c ∧ NamesOk c := by
 
 /-- the text the theorem predicts for the example (also the output of the real decompiler on the compiled chunks) -/
 example : String.ofList (mText exScript) =
-    "property score\nglobal gTotal\n\non startUp a, b\n    set x = ((a - (gTotal - 1)) * -(b + 70000))\n    set score = not (x <= 300)\n    set gTotal = sprite 1 within (x + 2)\nend\n\non finish\n    global counter\n    global zLast\n\n    set y = (score & (0 mod 129))\n    set z = max(field 3, [1, y, []])\n    startUp z, startUp(1, 2)\n    alert \"Hi there!\", #warn, (\"a\" && z)\n    set zLast = (counter + gTotal)\n    beep\n    exit\nend\n" := by
+    "property score\nglobal gTotal\n\non startUp a, b\n    set x = ((a - (gTotal - 1)) * -(b + 70000))\n    set score = not (x <= 300)\n    set gTotal = sprite 1 within (x + 2)\nend\n\non finish\n    global counter\n    global zLast\n\n    set y = (score & (0 mod 129))\n    set z = max(field 3, [1, y, []])\n    startUp z, startUp(1, 2)\n    alert \"Hi there!\", #warn, (\"a\" && z)\n    set zLast = (counter + gTotal)\n    set w = (the mouseH + (the stageColor + (the floatPrecision + the frameLabel)))\n    beep\n    exit\nend\n" := by
+  decide +kernel
+
+/-! ### non-vacuity, structured -/
+
+/-- `on go n / set x = 1 / repeat while not (x >= n) / if (x = 3) then / repeat with i = 1 to 9 / show i / end repeat / else /
+    set x = (x + 2) / end if / show x / end repeat / repeat with j = (n * 2) down to 1 / if the mouseDown then / exit / end if /
+    end repeat / end` -/
+def exStructured : Script :=
+  { factory := [], props := [], globals := [],
+    handlers := [
+      { name := "go".toList, params := ["n".toList], isMethod := false,
+        body := [
+          .set (.var .loc "x".toList) (.int 1),
+          .repeatWhile (.un .not (.bin .ge (.var .loc "x".toList) (.var .param "n".toList))) [
+            .ifThen (.bin .eq (.var .loc "x".toList) (.int 3))
+              [ .repeatWith (.var .loc "i".toList) (.int 1) (.int 9) false [ .call "show".toList [.var .loc "i".toList] ] ]
+              [ .set (.var .loc "x".toList) (.bin .add (.var .loc "x".toList) (.int 2)) ],
+            .call "show".toList [.var .loc "x".toList] ],
+          .repeatWith (.var .loc "j".toList) (.bin .mul (.var .param "n".toList) (.int 2)) (.int 1) true [
+            .ifThen (.key "mouseDown".toList) [ .exit ] [] ] ] } ] }
+
+example : FragScriptT exStructured = true := by decide +kernel
+example : FragScriptX exStructured = true := by decide +kernel
+example : ReadOkB exStructured = true := by decide +kernel
+
+example : ∃ c, compile {} exStructured = .ok c ∧ NamesOk c := by
+  have h : (match compile {} exStructured with
+      | .ok c => decide ((∀ n ∈ c.names, asciiName n = true) ∧ c.names.length < 32768)
+      | .error _ => false) = true := by decide +kernel
+  cases hc : compile {} exStructured with
+  | error e => rw [hc] at h; cases h
+  | ok c => rw [hc] at h; exact ⟨c, rfl, by simpa [NamesOk] using h⟩
+
+example : String.ofList (mText exStructured) =
+    "on go n\n    set x = 1\n    repeat while not (x >= n)\n        if (x = 3) then\n            repeat with i = 1 to 9\n                show i\n            end repeat\n        else\n            set x = (x + 2)\n        end if\n        show x\n    end repeat\n    repeat with j = (n * 2) down to 1\n        if the mouseDown then\n            exit\n        end if\n    end repeat\nend\n" := by
   decide +kernel
 
 end DrxProps.C02Link
